@@ -142,7 +142,13 @@ void __gmpq_inv(mpq_ptr r, mpq_srcptr a)
 	MODEL_ASSERT(n != 0, "gmp: mpq_inv of zero");
 	if (n < 0) { NUM(r) = -d; DEN(r) = -n; } else { NUM(r) = d; DEN(r) = n; }
 }
+#ifdef QSV_GETD_NONDET
+/* the conversion to double is LOSSY for numbers of more than 53 bits: modelled as an arbitrary double, so that any
+ * verdict that depends on it (instead of on exact comparisons) is visibly arbitrary; diagnostics may print it freely */
+double __gmpq_get_d(mpq_srcptr a) { return nondet_double(); }
+#else
 double __gmpq_get_d(mpq_srcptr a) { return (double) NUM(a) / (double) DEN(a); }
+#endif
 #else /* OPAQUE: all numbers are integer payloads with den == 1 */
 int __gmpq_equal(mpq_srcptr a, mpq_srcptr b) { tok_use(&a->_mp_num); tok_use(&b->_mp_num); return NUM(a) == NUM(b) && DEN(a) == DEN(b); }
 int __gmpq_cmp(mpq_srcptr a, mpq_srcptr b) { tok_use(&a->_mp_num); tok_use(&b->_mp_num); return NUM(a) < NUM(b) ? -1 : NUM(a) > NUM(b); }
